@@ -9,6 +9,7 @@ import JSight.SchemaViableFalse
 import JSight.SchemaTokViableExamples
 import JSight.SchemaErrWindowNext
 import JSight.SchemaViable
+import JSight.DocCorollaries
 /-!
 # C17 — Errors point at the offending byte and render correctly
 
@@ -434,3 +435,73 @@ end Props.C17
 #print axioms Props.C17.C17_schema_error_window_exact
 #print axioms Props.C17.C17_schema_window_next
 #print axioms Props.C17.C17_schema_prefix_of_accepted
+
+/-! ## Error positions of the json `Document` OBJECT after any history (carry-over of `C17_json_errpos` through the C11
+bridge `C11_doc_rejected_is_whole_text_model` / `C11_doc_rejected_all_deliveries`)
+
+`Sim.errPos Cfg.init (t.map classify) 0` is the index `C17_json_errpos` speaks about (the first byte the strict scanner
+rejects). `DocCorollaries.events_errPos`: the span-carrying whole-text model `JsonScan.events false` reports "invalid
+character" exactly there, and "unexpected end" exactly when no byte is rejected, at the last byte. -/
+namespace Props.C17
+section document
+open JsonScan DocCursor
+
+/-- `Check()` after ANY history answers what the whole-text model `checkS` answers on the text (both modes):
+OK, or the error with code 301 / 303 / 203 and the same index -/
+theorem C17_document_check_is_whole_text_model (t : List UInt8) (o : Bool) (ops : List Op) :
+    (((Doc.new t o).run ops).2.step .check).1 = .check (DocCorollaries.checkOfS (checkS o t)) :=
+  DocCorollaries.check_after_checkS t o ops
+
+/-- strict document, ANY history: if `Check()` reports the error `c` at index `p`, then either
+* `c = 301` "invalid character": `p` is an index of the text, it is the byte of `C17_json_errpos` - the text before it can
+  be continued to a JSON text and no text that has the bytes up to and including `p` is a JSON text; or
+* `c = 303` "unexpected end": `p` is the last byte, the text is not a JSON text, no byte of it is rejected and it can be
+  continued to a JSON text (the input ended early); or
+* `c = 203` "empty JSON" at 0: the whole-text model accepts the text without delivering a lexeme;
+and for 301 / 303 the same error is the one the `NextLexeme` sequence of the document ENDS with: every delivery before
+index `|eventsSeen|` is a lexeme without error, the delivery at that index is the error `c` at `p` (and stays:
+`C11_doc_next_spec`, `C11_doc_error_sticky`) -/
+theorem C17_document_error_position (t : List UInt8) (ops : List Op) (c p : Nat)
+    (h : (((Doc.new t false).run ops).2.step .check).1 = .check (.err c p)) :
+    ((c = 301 ∧ p < t.length ∧ (∃ suffix : List UInt8, check false (t.take p ++ suffix) = true) ∧
+        (∀ suffix : List UInt8, check false (t.take (p + 1) ++ suffix) = false)) ∨
+     (c = 303 ∧ p = t.length - 1 ∧ check false t = false ∧ Sim.errPos Cfg.init (t.map classify) 0 = none ∧
+        (∃ suffix : List UInt8, check false (t ++ suffix) = true)) ∨
+     (c = 203 ∧ p = 0 ∧ ∃ evs, events false t = .ok evs ∧ nonTop evs = [])) ∧
+    (c ≠ 203 → lexAt t false (eventsSeen false t).length = .err c p ∧
+      ∀ k, k < (eventsSeen false t).length → ∃ ev, lexAt t false k = .lex ev) := by
+  obtain ⟨h1, h2⟩ := DocCorollaries.doc_error_position t ops c p h
+  refine ⟨?_, h2⟩
+  rcases h1 with ⟨hc, he, hp⟩ | ⟨hc, he, hp, hf⟩ | h3
+  · exact Or.inl ⟨hc, hp, C17_json_errpos t p he⟩
+  · obtain ⟨sfx, hs⟩ := DocCorollaries.eof_viable _ he
+    refine Or.inr (Or.inl ⟨hc, hp, hf, he, sfx.map repr, ?_⟩)
+    unfold check
+    rw [List.map_append, map_classify_repr]
+    exact hs
+  · exact Or.inr (Or.inr h3)
+
+/-- the other direction for "invalid character": if the strict scanner rejects byte `j` (hypothesis of `C17_json_errpos`),
+`Check()` after ANY history reports 301 at `j` -/
+theorem C17_document_reports_first_dead_byte (t : List UInt8) (ops : List Op) (j : Nat)
+    (he : Sim.errPos Cfg.init (t.map classify) 0 = some j) :
+    (((Doc.new t false).run ops).2.step .check).1 = .check (.err 301 j) :=
+  DocCorollaries.doc_check_of_errPos t ops j he
+
+/-! Non-vacuity: `[1, x]` (invalid character at 4) and `[1,` (input ends early) with histories -/
+example : (((Doc.new (s "[1, x]") false).run [.next, .len, .next, .next]).2.step .check).1 = .check (.err 301 4) ∧
+    eventsSeen false (s "[1, x]") = [⟨.arrB, 0, 0⟩, ⟨.itemB, 1, 1⟩, ⟨.litB, 1, 1⟩, ⟨.litE, 1, 1⟩, ⟨.itemE, 1, 1⟩] ∧
+    lexAt (s "[1, x]") false 5 = .err 301 4 := ⟨by decide, by decide, by decide⟩
+example : (((Doc.new (s "[1,") false).run [.check, .next, .len]).2.step .check).1 = .check (.err 303 2) ∧
+    Sim.errPos Cfg.init ((s "[1,").map classify) 0 = none ∧ check false (s "[1," ++ s "0]") = true :=
+  ⟨by decide, by decide, by decide⟩
+example : (((Doc.new (s "[1, x]") false).run [.next, .len, .next, .next]).2.step .check).1 = .check (.err 301 4) :=
+  C17_document_reports_first_dead_byte _ _ 4 (by decide +kernel)
+example : (((Doc.new (s "  ") false).run [.next]).2.step .check).1 = .check (.err 203 0) := by decide
+
+end document
+end Props.C17
+
+#print axioms Props.C17.C17_document_check_is_whole_text_model
+#print axioms Props.C17.C17_document_error_position
+#print axioms Props.C17.C17_document_reports_first_dead_byte
